@@ -37,7 +37,7 @@ _BUILTINS = {
     "zip": zip, "enumerate": enumerate, "min": min, "max": max, "sum": sum, "abs": abs,
     "any": any, "all": all, "reversed": reversed, "chr": chr, "ord": ord, "round": round,
     "True": True, "False": False, "None": None, "isinstance": _isinstance, "repr": repr,
-    "divmod": divmod, "pow": pow,
+    "divmod": divmod, "pow": pow, "format": format,
 }
 _SAFE_METHODS = {
     str: {"join", "lower", "upper", "strip", "lstrip", "rstrip", "split", "replace", "startswith",
@@ -45,6 +45,8 @@ _SAFE_METHODS = {
     dict: {"items", "keys", "values", "get", "copy", "update", "setdefault", "pop"},
     list: {"append", "extend", "index", "count", "copy", "insert", "pop", "sort", "reverse"},
     tuple: {"index", "count"},
+    float: {"is_integer", "hex", "as_integer_ratio"},
+    int: {"bit_length"},
     set: {"add", "union", "update", "copy", "discard"},
     frozenset: {"union"},
 }
@@ -123,10 +125,11 @@ class Stub:
     """A stand-in object handed to a folded function by a rule (e.g. a regex match with
     given groups, a tag with given attributes): named attributes and pure methods."""
 
-    def __init__(self, name, attrs=None, methods=None):
+    def __init__(self, name, attrs=None, methods=None, cls=None):
         self.name = name
         self.attrs = dict(attrs or {})
         self.methods = dict(methods or {})
+        self.cls = cls          # ClassInfo: other methods / class attributes are taken from this class
 
     def __repr__(self):
         return f"<stub {self.name}>"
@@ -285,6 +288,8 @@ class Folder:
                 self._exec_block(st.body, e)
         elif isinstance(st, ast.Pass):
             pass
+        elif isinstance(st, ast.FunctionDef):
+            e.set(st.name, ("closure", st, e))
         elif isinstance(st, ast.Try) and not st.finalbody:
             # lookups on folded containers raise the genuine exception types: handlers are matched by name
             try:
@@ -484,6 +489,13 @@ class Folder:
         if isinstance(obj, Stub):
             if x.attr in obj.attrs:
                 return obj.attrs[x.attr]
+            if obj.cls is not None:
+                c, v = obj.cls.find_class_attr(x.attr)
+                if c is not None:
+                    return self._eval(v, _Env(self, c.module, self.module_env(c.module), {}))
+                m = obj.cls.find_method(x.attr)
+                if m is not None and m.kind == "property":
+                    return self.call_function(m, [], {}, self_value=obj)
             raise AnalysisError(f"constfold: attribute {x.attr} of {obj!r}")
         if isinstance(obj, EnumClass):
             m = obj.by_name(x.attr)
@@ -536,10 +548,13 @@ class Folder:
                     return self._apply(tgt, x, e)
             obj = self._eval(f.value, e)
             if isinstance(obj, Stub):
+                args = self._elts(x.args, e)
+                kw = {k.arg: self._eval(k.value, e) for k in x.keywords}
                 if f.attr in obj.methods:
-                    args = self._elts(x.args, e)
-                    kw = {k.arg: self._eval(k.value, e) for k in x.keywords}
                     return obj.methods[f.attr](*args, **kw)
+                m = obj.cls.find_method(f.attr) if obj.cls is not None else None
+                if m is not None:
+                    return self.call_function(m, args, kw, self_value=obj)
                 raise AnalysisError(f"constfold: method {f.attr} of {obj!r}")
             if isinstance(obj, (ClassRef, EnumClass, Inst)):
                 tgt = self._attr(f, e)
@@ -580,7 +595,8 @@ class Folder:
             import importlib
             mod_, _, fn_ = dotted.rpartition(".")
             return getattr(importlib.import_module(mod_), fn_)(*args, **kw)   # stdlib, pure
-        if dotted in ("fractions.Fraction", "decimal.Decimal", "math.floor", "math.ceil"):
+        if dotted in ("fractions.Fraction", "decimal.Decimal", "math.floor", "math.ceil", "textwrap.fill", "textwrap.wrap",
+                      "math.trunc", "copy.copy", "copy.deepcopy"):
             import importlib
             mod_, _, fn_ = dotted.rpartition(".")
             return getattr(importlib.import_module(mod_), fn_)(*args, **kw)   # stdlib, pure
@@ -611,6 +627,21 @@ class Folder:
             return Inst(tgt.cls, args, kw)
         if isinstance(tgt, FuncRef):
             return self.call_function(tgt.fn, args, kw)
+        if isinstance(tgt, tuple) and tgt and tgt[0] == "closure":
+            _, fdef, env = tgt
+            ee = env.child()
+            ps = [a.arg for a in fdef.args.posonlyargs + fdef.args.args]
+            if len(args) > len(ps) or fdef.args.vararg or fdef.args.kwarg:
+                raise AnalysisError("constfold: nested function call shape")
+            for p_, a_ in zip(ps, args):
+                ee.set(p_, a_)
+            for k_, v_ in kw.items():
+                ee.set(k_, v_)
+            try:
+                self._exec_block(fdef.body, ee)
+            except _Return as r:
+                return r.value
+            return None
         if isinstance(tgt, tuple) and tgt and tgt[0] == "lambda":
             _, lam, env = tgt
             ee = env.child()
@@ -619,6 +650,31 @@ class Folder:
             return self._eval(lam.body, ee)
         raise AnalysisError(f"constfold: call of {type(tgt).__name__}")
 
+    def call_value(self, tgt, args):
+        """apply a folded callable (lambda, nested function, function reference) to Python values;
+        for stub methods that receive callbacks"""
+        if isinstance(tgt, tuple) and tgt and tgt[0] == "lambda":
+            _, lam, env = tgt
+            ee = env.child()
+            for p_, a_ in zip([a.arg for a in lam.args.args], args):
+                ee.set(p_, a_)
+            return self._eval(lam.body, ee)
+        if isinstance(tgt, tuple) and tgt and tgt[0] == "closure":
+            _, fdef, env = tgt
+            ee = env.child()
+            for p_, a_ in zip([a.arg for a in fdef.args.posonlyargs + fdef.args.args], args):
+                ee.set(p_, a_)
+            try:
+                self._exec_block(fdef.body, ee)
+            except _Return as r:
+                return r.value
+            return None
+        if isinstance(tgt, FuncRef):
+            return self.call_function(tgt.fn, list(args))
+        if callable(tgt):
+            return tgt(*args)
+        raise AnalysisError("constfold: value is not callable")
+
     def call_function(self, fn, args, kw=None, self_value=None):
         kw = kw or {}
         stub = getattr(self, "stubs", {}).get(fn.key)
@@ -626,7 +682,7 @@ class Folder:
             return stub(*args, **kw)
         local = {}
         params = list(fn.params)
-        if fn.cls is not None and fn.kind == "method":
+        if fn.cls is not None and fn.kind in ("method", "property"):
             if self_value is None:
                 raise AnalysisError(f"constfold: instance method call {fn.key}")
             local[params[0]] = self_value
@@ -647,10 +703,18 @@ class Folder:
                 local[p] = self._eval(defaults[p], menv)
             else:
                 raise AnalysisError(f"constfold: missing argument {p} for {fn.key}")
+        self._depth = getattr(self, "_depth", 0) + 1
         try:
             self._exec_block(fn.node.body, menv)
         except _Return as r:
             return r.value
+        except (KeyError, IndexError, ValueError, TypeError, ZeroDivisionError, AttributeError) as exc:
+            if self._depth == 1:
+                # the folded program itself raised: an outcome of the fold, not a checker crash
+                raise FoldRaise(f"{type(exc).__name__}: {exc}")
+            raise
+        finally:
+            self._depth -= 1
         return None
 
 
